@@ -41,3 +41,29 @@ cmp_harness!(c14_gt_if, bip_greater_than, "greater_than", i64, Unifiable::SInteg
 cmp_harness!(c14_ge_ff, bip_greater_than_or_equal, "greater_than_or_equal", f64, Unifiable::SFloat, f64, Unifiable::SFloat, >=);
 cmp_harness!(c14_ge_fi, bip_greater_than_or_equal, "greater_than_or_equal", f64, Unifiable::SFloat, i64, Unifiable::SInteger, >=);
 cmp_harness!(c14_ge_if, bip_greater_than_or_equal, "greater_than_or_equal", i64, Unifiable::SInteger, f64, Unifiable::SFloat, >=);
+
+// --- experiment: shallow clone stub for constants ------------------------------------------
+fn stub_clone_const(u: &Unifiable) -> Unifiable {
+    match u {
+        Unifiable::SFloat(f) => Unifiable::SFloat(*f),
+        Unifiable::SInteger(i) => Unifiable::SInteger(*i),
+        _ => { kani::assume(false); Unifiable::Nil }
+    }
+}
+
+// leak instead of dropping: the element drop glue of the recursive enum is what CBMC cannot digest
+fn stub_vec_drop(_v: &mut Vec<Unifiable>) {}
+
+#[kani::proof]
+#[kani::stub(alloc::fmt::format, stub_format)]
+#[kani::stub(<suiron::Unifiable as core::clone::Clone>::clone, stub_clone_const)]
+#[kani::stub(<std::vec::Vec<suiron::Unifiable> as core::ops::Drop>::drop, stub_vec_drop)]
+#[kani::unwind(3)]
+fn x14_lt_ff_stubclone() {
+    let l: f64 = kani::any();
+    let r: f64 = kani::any();
+    let ss: ManuallyDrop<Rc<SubstitutionSet>> = ManuallyDrop::new(Rc::new(Vec::new()));
+    let bip = BuiltInPredicate::new(String::new(), Some(vec![Unifiable::SFloat(l), Unifiable::SFloat(r)]));
+    let got = ManuallyDrop::new(bip_less_than(bip, &ss));
+    assert!(got.is_some() == (l < r), "outcome differs from the numeric comparison");
+}
